@@ -432,6 +432,10 @@ impl<'a> Runner<'a> {
                         // specification and store disagree on an argument at the limits: not C16's
                         // subject; stop here so that later calls are not aimed at a wrong state
                         self.stats.adversarial_diverged += 1;
+                        *self.stats.reject_kinds.entry(format!("limit_argument_disagreement:{}:spec_{}_store_{}", op.brief().chars().take(60).collect::<String>(), if res.is_ok() { "accepts" } else { "rejects" }, if out.is_ok() { "accepts" } else { "rejects" })).or_insert(0) += 1;
+                        if std::env::var("RLMON_DEBUG").is_ok() && res.is_ok() {
+                            eprintln!("DISAGREE step {} {} -> {} ; model {:?} first={:?} ; store {:?} ; ops {:?}", self.step_ix, op.brief(), out.brief(), self.m.st, self.m.first_index(), self.st.state(), crate::genr::steps_brief(&self.case.steps[..=self.step_ix]));
+                        }
                         self.stop = true;
                     } else if res.is_ok() || prefix_applies {
                         for r in &recs {
@@ -649,31 +653,31 @@ pub struct SeqPlan {
 pub fn plan_for(prop: &str) -> SeqPlan {
     let mut p = GenParams::default();
     match prop {
-        "C01" => SeqPlan { params: p, check_each: true, final_restart: false, quick_histories: 60 },
+        "C01" => SeqPlan { params: p, check_each: true, final_restart: false, quick_histories: 200 },
         "C02" => {
             p.reopen_pm = 60;
             // some refused calls too: a history is any sequence of calls, and a refused call must not
             // stand in the way of the next restart
             p.reject_pm = 40;
-            SeqPlan { params: p, check_each: true, final_restart: true, quick_histories: 60 }
+            SeqPlan { params: p, check_each: true, final_restart: true, quick_histories: 120 }
         }
         "C06" => {
             p.reject_pm = 250;
             p.big_payloads = false;
-            SeqPlan { params: p, check_each: true, final_restart: true, quick_histories: 50 }
+            SeqPlan { params: p, check_each: true, final_restart: true, quick_histories: 200 }
         }
         "C16" => {
             p.min_ops = 0;
             p.max_ops = 40;
             p.big_payloads = false;
-            SeqPlan { params: p, check_each: false, final_restart: false, quick_histories: 150 }
+            SeqPlan { params: p, check_each: false, final_restart: false, quick_histories: 600 }
         }
         _ => {
             // C11
             p.sync_pm = 80;
             p.end_sync = true;
             p.reopen_pm = 15;
-            SeqPlan { params: p, check_each: true, final_restart: false, quick_histories: 50 }
+            SeqPlan { params: p, check_each: true, final_restart: false, quick_histories: 150 }
         }
     }
 }
